@@ -589,7 +589,8 @@ contract(F, 'Table.transform', tier='A', props=['C13', 'C07'],
         "        and karg('_transform', 0) is not self._data)",
     ],
     raises={'UnknownAxisError': ["not (%s)" % AX.replace("axis ==", "old(axis) ==")]},
-    modifies=['self._data', 'self._data.*'])
+    returns='Alias[self]|Obj:Table',
+    modifies=[("inplace", 'self._data'), ("inplace", 'self._data.*')])
 
 contract(F, 'Table.copy', tier='A', props=['C07', 'C06'],
     types={'self': 'Obj:Table'},
@@ -824,3 +825,178 @@ contract(F, 'Table.get_table_density', tier='A', props=['C19', 'C05'],
              "        result * (len(self._sample_ids) * len(self._observation_ids)) == nnz_true(self._data))",
              "implies(len(self._sample_ids) == 0 or len(self._observation_ids) == 0, result == 0)"],
     modifies=['self._data.*'])
+
+
+# ---------------------------------------------------------------------------
+# C06: transpose and sort_order (permute / relabel only)
+# ---------------------------------------------------------------------------
+ASSUMED['sp.fancy'] = ('scipy: m[:, idx] / m[idx, :] with an integer index array is a fresh matrix gathering those columns / '
+                       'rows in that order (every index must lie inside the axis); numpy: a[idx] gathers likewise')
+ASSUMED['np.array'] = 'numpy.array(seq[, dtype=int]) of a list / tuple / array is an array with the same elements in order'
+
+
+def _tw_sp_method_c06(self, eng, st, recv, n, name, args, kwargs, node):
+    if name == 'transpose':
+        self.used.add('sp.transpose')
+        st = st.copy()
+        sh = n.fields['_shape'].items
+        cell = n.fields['cell'].term
+        ct = fresh('cellT', CELL)
+        i, j = fresh('i', I), fresh('j', I)
+        st.assume(z3.ForAll([i, j], ct[i][j] == cell[j][i], patterns=[ct[i][j]]))
+        fmt = z3.If(n.fields['fmt'].term == smt.str_lit('csr'), smt.str_lit('csc'),
+                    z3.If(n.fields['fmt'].term == smt.str_lit('csc'), smt.str_lit('csr'), n.fields['fmt'].term))
+        return [Result(st, self.sp_clone(st, n, cell=VGhost(ct), _shape=VTuple([sh[1], sh[0]]), fmt=VStr(fmt)))]
+    return _orig_sp_method(self, eng, st, recv, n, name, args, kwargs, node)
+
+
+_orig_sp_method = TableWorld.sp_method
+TableWorld.sp_method = _tw_sp_method_c06
+
+
+def _tw_obj_index(self, eng, st, base, n, idx, node):
+    """m[:, fancy] and m[fancy, :] on the view-level matrix"""
+    if n.cls == 'SP' and idx.kind == 'tuple' and len(idx.items) == 2:
+        a, b = idx.items
+        full = lambda v: v.kind == 'slice' and v.lo is None and v.hi is None
+        pick = b if full(a) else (a if full(b) else None)
+        if pick is None or not (pick.kind == 'ref' and isinstance(st.node(pick), Arr) and st.node(pick).elem == 'int'):
+            raise EngineError('%s:%d: matrix indexing form is not modelled' % (eng.rel, node.lineno))
+        self.used.add('sp.fancy')
+        cols = full(a)
+        f = st.node(pick)
+        sh = n.fields['_shape'].items
+        limit = sh[1].term if cols else sh[0].term
+        k = fresh('k', I)
+        eng.oblige(st, 'call-pre/fancy-index-in-range',
+                   z3.ForAll([k], z3.Implies(z3.And(0 <= k, k < f.n), z3.And(0 <= f.a[k], f.a[k] < limit))), node.lineno)
+        st = st.copy()
+        cell = n.fields['cell'].term
+        c2 = fresh('gathered', CELL)
+        i, j = fresh('i', I), fresh('j', I)
+        if cols:
+            st.assume(z3.ForAll([i, j], c2[i][j] == cell[i][f.a[j]], patterns=[c2[i][j]]))
+            shape = VTuple([sh[0], VInt(f.n)])
+        else:
+            st.assume(z3.ForAll([i, j], c2[i][j] == cell[f.a[i]][j], patterns=[c2[i][j]]))
+            shape = VTuple([VInt(f.n), sh[1]])
+        return [Result(st, self.sp_clone(st, n, cell=VGhost(c2), _shape=shape, sorted=VBool(fresh('gsorted', B))))]
+    return None
+
+
+TableWorld.obj_index = _tw_obj_index
+
+
+def _tw_builtin_c06(self, eng, st, name, args, kwargs, node, starv=None, dstar=None):
+    if name in ('np.array', 'numpy.array'):
+        self.used.add('np.array')
+        out = []
+        for s2, v in eng.norm_opt(st, args[0]):
+            if v.kind == 'ref' and isinstance(s2.node(v), Arr):
+                s2 = s2.copy()
+                n0 = s2.node(v)
+                out.append(Result(s2, s2.alloc(Arr(n0.elem, n0.a, n0.n, 'ndarray'))))
+            else:
+                raise EngineError('%s:%d: np.array of %s' % (eng.rel, node.lineno, v.kind))
+        return out
+    return _orig_builtin_c06(self, eng, st, name, args, kwargs, node, starv, dstar)
+
+
+_orig_builtin_c06 = TableWorld.call_builtin
+TableWorld.call_builtin = _tw_builtin_c06
+
+contract(F, 'Table.transpose', tier='A', props=['C06', 'C07'],
+    types={'self': 'Obj:Table'},
+    requires=WF_T,
+    returns='Obj:Table',
+    ensures=[
+        "result is not self and result._data is not self._data",
+        # ids and metadata change places, every value keeps its pair of ids
+        "same_seq(result._observation_ids, self._sample_ids) and same_seq(result._sample_ids, self._observation_ids)",
+        "same_seq(result._observation_metadata, self._sample_metadata) and same_seq(result._sample_metadata, self._observation_metadata)",
+        "result._data.shape[0] == self._data.shape[1] and result._data.shape[1] == self._data.shape[0]",
+        "all(cell(result._data, j, i) == cell(self._data, i, j) for i in range(self._data.shape[0]) for j in range(self._data.shape[1]))",
+        "samecells(self._data, old(self._data.cell))",
+    ],
+    modifies=[("self._data.fmt == 'lil'", 'self._data')])
+
+
+IDX = "(self._sample_index if axis == 'sample' else self._obs_index)"
+contract(F, 'Table.sort_order', tier='A', props=['C06', 'C07'],
+    types={'self': 'Obj:Table', 'order': 'Arr[Str]', 'axis': 'Str'},
+    requires=WF_T + ["is_index_of(self._sample_index, self._sample_ids) and is_index_of(self._obs_index, self._observation_ids)",
+                     "isnone(self._sample_metadata) or len(self._sample_metadata) == len(self._sample_ids)",
+                     "isnone(self._observation_metadata) or len(self._observation_metadata) == len(self._observation_ids)"],
+    returns='Obj:Table',
+    ensures=[
+        "result is not self and result._data is not self._data and samecells(self._data, old(self._data.cell))",
+        # the ids of the axis are exactly the requested order; the other axis is untouched
+        "implies(axis == 'sample', same_seq(result._sample_ids, order) and same_seq(result._observation_ids, self._observation_ids)"
+        "        and same_seq(result._observation_metadata, self._observation_metadata))",
+        "implies(axis == 'observation', same_seq(result._observation_ids, order) and same_seq(result._sample_ids, self._sample_ids)"
+        "        and same_seq(result._sample_metadata, self._sample_metadata))",
+        # every value and every metadata entry travels with its id
+        "implies(axis == 'sample', result._data.shape[0] == self._data.shape[0] and result._data.shape[1] == len(order) and "
+        "        all(cell(result._data, i, k) == cell(self._data, i, self._sample_index[order[k]]) "
+        "            for i in range(self._data.shape[0]) for k in range(len(order))))",
+        "implies(axis == 'observation', result._data.shape[1] == self._data.shape[1] and result._data.shape[0] == len(order) and "
+        "        all(cell(result._data, k, j) == cell(self._data, self._obs_index[order[k]], j) "
+        "            for k in range(len(order)) for j in range(self._data.shape[1])))",
+        "implies(axis == 'sample' and not isnone(self._sample_metadata), "
+        "        all(result._sample_metadata[k] == self._sample_metadata[self._sample_index[order[k]]] for k in range(len(order))))",
+        "implies(axis == 'observation' and not isnone(self._observation_metadata), "
+        "        all(result._observation_metadata[k] == self._observation_metadata[self._obs_index[order[k]]] for k in range(len(order))))",
+        "implies(axis == 'sample', isnone(result._sample_metadata) == isnone(self._sample_metadata))",
+        "all(order[k] in %s for k in range(len(order)))" % IDX,
+    ],
+    raises={'UnknownAxisError': ["not (%s)" % AX],
+            # an id that the table does not have is reported as unknown
+            'UnknownIDError': [AX, "any(order[k] not in %s for k in range(len(order)))" % IDX]},
+    modifies=[])
+
+
+# pa / norm / rankdata are transforms with a fixed function (its arithmetic is evaluated by the bounded tier)
+for _name, _types, _ax in (('pa', {'self': 'Obj:Table', 'inplace': 'Bool'}, "'sample'"),
+                           ('norm', {'self': 'Obj:Table', 'axis': 'Str', 'inplace': 'Bool'}, 'axis'),
+                           ('rankdata', {'self': 'Obj:Table', 'axis': 'Str', 'inplace': 'Bool', 'method': 'Str'}, 'axis')):
+    contract(F, 'Table.' + _name, tier='A', props=['C13', 'C07'],
+        types=_types, requires=WF_T,
+        returns='Alias[self]|Obj:Table',
+        ensures=["(result is self) == inplace"],
+        internal=["ccount('Table.transform') == 1 and carg('Table.transform', 0, 'self') is self",
+                  "carg('Table.transform', 0, 'axis') == %s and carg('Table.transform', 0, 'inplace') == inplace" % _ax],
+        raises={'UnknownAxisError': ["not (%s)" % AX.replace('axis', _ax)]} if _ax == 'axis' else {},
+        modifies=[("inplace", 'self._data'), ("inplace", 'self._data.*')])
+
+
+# sort: the caller's function sees the ids of the axis once; what it returns is the new order, and every value
+# and metadata entry travels with its id (sort_order's contract carries that part)
+_ORD = "callret(sort_f, 0)"
+contract(F, 'Table.sort', tier='A', props=['C06', 'C07'],
+    types={'self': 'Obj:Table', 'sort_f': 'Callback[Arr[Str]]->Arr[Str]', 'axis': 'Str'},
+    requires=WF_T + ["is_index_of(self._sample_index, self._sample_ids) and is_index_of(self._obs_index, self._observation_ids)",
+                     "isnone(self._sample_metadata) or len(self._sample_metadata) == len(self._sample_ids)",
+                     "isnone(self._observation_metadata) or len(self._observation_metadata) == len(self._observation_ids)"],
+    returns='Obj:Table',
+    ensures=[
+        "ncalls(sort_f) == 1",
+        "implies(axis == 'sample', same_seq(callarg(sort_f, 0, 0), self._sample_ids))",
+        "implies(axis == 'observation', same_seq(callarg(sort_f, 0, 0), self._observation_ids))",
+        "result is not self and result._data is not self._data and samecells(self._data, old(self._data.cell))",
+        "implies(axis == 'sample', same_seq(result._sample_ids, %s) and same_seq(result._observation_ids, self._observation_ids)"
+        "        and same_seq(result._observation_metadata, self._observation_metadata))" % _ORD,
+        "implies(axis == 'observation', same_seq(result._observation_ids, %s) and same_seq(result._sample_ids, self._sample_ids)"
+        "        and same_seq(result._sample_metadata, self._sample_metadata))" % _ORD,
+        "implies(axis == 'sample', result._data.shape[0] == self._data.shape[0] and result._data.shape[1] == len(%s) and "
+        "        all(cell(result._data, i, k) == cell(self._data, i, self._sample_index[%s[k]]) "
+        "            for i in range(self._data.shape[0]) for k in range(len(%s))))" % (_ORD, _ORD, _ORD),
+        "implies(axis == 'observation', result._data.shape[1] == self._data.shape[1] and result._data.shape[0] == len(%s) and "
+        "        all(cell(result._data, k, j) == cell(self._data, self._obs_index[%s[k]], j) "
+        "            for k in range(len(%s)) for j in range(self._data.shape[1])))" % (_ORD, _ORD, _ORD),
+        "implies(axis == 'sample' and not isnone(self._sample_metadata), "
+        "        all(result._sample_metadata[k] == self._sample_metadata[self._sample_index[%s[k]]] for k in range(len(%s))))" % (_ORD, _ORD),
+        "implies(axis == 'observation' and not isnone(self._observation_metadata), "
+        "        all(result._observation_metadata[k] == self._observation_metadata[self._obs_index[%s[k]]] for k in range(len(%s))))" % (_ORD, _ORD),
+    ],
+    raises={'UnknownAxisError': ["not (%s)" % AX], 'UnknownIDError': [AX], '*': []},
+    modifies=[])
